@@ -105,7 +105,7 @@ class SrcIndex:
                     for m in re.finditer('\n',raw): offs.append(m.end())
                     self.files[rel]=(raw,st,offs)
                     self._index_items(rel,st)
-        self._impl_cache={}
+        self._impl_cache={}; self.handwritten=set()      # spans of impl blocks written by hand (as opposed to derive-generated ones)
         self._qualify_dups()
 
     def _qualify_dups(self):
@@ -204,6 +204,7 @@ class SrcIndex:
         text=st[a:b]
         res=(None,None)
         if text.lstrip().startswith('impl'):
+            self.handwritten.add(span)
             j=st.find('{',a)
             hdr=' '.join(st[a:j].split())
             hdr=re.sub(r'\bwhere\b.*$','',hdr).strip()
